@@ -220,6 +220,14 @@ func (r *rules) Enabled() []seqx.Event {
 			ev = append(ev, seqx.Ev("Fault", int64(n), 0), seqx.Ev("Fault", int64(n), 1))
 		}
 	}
+	if r.prop == "C01" || r.tier == "thorough" {
+		// a Modification carrying the session's OWN current node id (TS 29.244 7.5.4 allows the IE; the re-keying of
+		// the association under an unchanged id must be a no-op): the state is unchanged, so the search does not
+		// grow - but a later re-association must still find the node
+		for _, k := range r.liveK() {
+			ev = append(ev, seqx.Ev("TakeoverSelf", int64(k)))
+		}
+	}
 	if r.prop == "C05" {
 		for _, k := range r.liveK() {
 			if r.nPush < 3 {
@@ -674,6 +682,20 @@ func (r *rules) Apply(e seqx.Event) seqx.StepResult {
 		r.merged = true
 		r.isolated(j, "takeover onto an associated node id", before, r.snap(), touched, o)
 		j.Tag("takeover-onto-associated")
+	case "TakeoverSelf":
+		k := int(e.A[0])
+		up := r.SeidOf(k)
+		s := r.R.Live[up]
+		for x := range r.R.Nodes[s.Node].Sess {
+			touched[x] = true
+		}
+		o = r.W.Send(s.Peer, smf.Mod(r.NextSeq(s.Peer), up, s.Node))
+		if j.Crashed(r.W, o) {
+			break
+		}
+		j.OnlyTo(o, s.Peer, "TakeoverSelf")
+		r.isolated(j, "takeover by the session's own node id", before, r.snap(), touched, o)
+		j.Tag("takeover-self")
 	case "Takeover":
 		k, t := int(e.A[0]), int(e.A[1])
 		up := r.SeidOf(k)
